@@ -17,11 +17,11 @@ RULES = {
     'R3': 'capacity agreement: every caller of the two formatters passes a buffer at least as large as the bound the callee uses (max(QB_LOG_MAX_LEN, max_line_length), QB_LOG_ABSOLUTE_MAX_LEN)',
     'R4': 'max_line_length is written only by qb_log_init (constant) and qb_log_ctl2 (guarded by a lower and an upper bound); the resulting invariant is what R1/R2 assume',
     'R5': 'directive alphabet: dynamic formatter n f l p t T b g, static formatter P N H; "-" and digits consumed before the switch; unknown letters take the default branch',
-    'R6': 'qb_log_real_va_: the buffer handed to cs_format has the capacity passed as maxlen on the stack and the heap branch',
+    'R6': 'qb_log_real_va_: the buffer handed to cs_format has the capacity passed as maxlen on the stack and the heap branch, and that capacity is never 0 (entailed at every cs_format call: with no target selected the default applies)',
     'R7': 'the format scan never steps over the format\'s terminator: the step that follows a directive is taken only if the character it steps over is not NUL',
     'R8': 'the formatted line is terminated at its write index: the terminating NUL is stored at output[idx] (not at an earlier position that later stores can overwrite) on every path',
 }
-FLOORS = {'R1': 14, 'R2': 6, 'R3': 3, 'R4': 3, 'R5': 4, 'R6': 3, 'R7': 2, 'R8': 1}
+FLOORS = {'R1': 14, 'R2': 6, 'R3': 3, 'R4': 3, 'R5': 4, 'R6': 4, 'R7': 2, 'R8': 1}
 
 MLL = 'max_line_length'      # canonical term of qb_log_target.max_line_length (engine.bounds.CANON_FIELDS)
 
@@ -249,6 +249,21 @@ def r6(ctx):
         ctx.check('R6', 'cs_format-buffer-capacity', okh and oks and len(arr) == 1, ev,
                   'cs_format gets max_line_length and a buffer of max(%s, max_line_length) bytes' % arr,
                   'the buffer handed to cs_format can be smaller than the maxlen passed (array %s, heap %s)' % (arr, [estr(m) for m in mal]))
+    # the capacity is never 0: with no target selected the loop over the targets leaves it at its initial 0, vsnprintf(buf, 0, ..)
+    # writes nothing and whoever gets the buffer (the old-style log function) reads an uninitialised string
+    from engine.bounds import Analysis, Lin
+    an = Analysis(prog, f, {}, init=[]).run()
+    for ev in calls:
+        if any(field_is(n, 'targets') for (a, _e) in f.guards(ev) for n in walk(a.l)):
+            # formatted for a target that is enabled and selects the call site: the capacity is at least that target's limit
+            # (capacity-is-max-over-targets below, limits >= 4 by R4)
+            continue
+        sts = an.states.get((ev.blk, ev.idx), [])
+        capl = [an.lin(ev.args[1], st) for st in sts]
+        okz = bool(sts) and all(c is not None and st.entails_le(1, c) for (c, st) in zip(capl, sts))
+        ctx.check('R6', 'cs_format-capacity-not-zero', okz, ev, 'cs_format is given a capacity of at least 1',
+                  'cs_format can be given a capacity of 0 (no enabled target wants the call site): nothing is formatted and the uninitialised stack buffer is '
+                  'handed on - to the old-style log function for every libqb-tagged message')
     # the capacity variable is the maximum over the selected targets' limits
     cap = estr(unwrap(calls[0].args[1]))
     ups = [st for st in f.events('STORE') if estr(st.lhs) == cap and field_is(st.rhs, 'max_line_length')]
